@@ -247,6 +247,9 @@ def rules(ctx):
     cname = ancilla_base_instances(ctx, 'R01.3')
     from .C14 import registration_parity
     registration_parity(ctx, 'R01.3')      # premise: the variable count bounds every mapped label
+    from .C14 import refresh_order, who_may_write, G1
+    refresh_order(ctx, 'R01.3')            # ... also after refresh (the count and the mapping are rebuilt together)
+    who_may_write(ctx, 'R01.3', G1)        # ... and no other function resets one without the other
     if cname:
         incs = _counter_names(fn, W)[cname]
         takes = []
